@@ -85,6 +85,50 @@ def encode_traces(facts):
         env[pn[-1]] = ('<default prefix>', '<default suffix>')
         it.val(b['body'], env)
         out[('table', n)] = [(nm,) + keep(args) for nm, args in it.calls]
+    # encode_formatted / encode_key: the explicit representation when there is one, else the default one; encoded against the source text when
+    # there is one, else displayed; for a value between its decor
+    SOME, NONE = 'core::option::Option::Some', 'core::option::Option::None'
+    REPR = lambda t: ('struct', 'toml_edit::repr::Repr', {'raw_value': ('struct', 'toml_edit::raw_string::RawString', {
+        '0': ('ctor', 'toml_edit::raw_string::RawStringInner::Explicit', (('struct', 'toml_edit::internal_string::InternalString', {'0': t}),))})})
+
+    def text_of(x, depth=0):
+        if isinstance(x, str):
+            return x
+        if depth < 8 and isinstance(x, tuple):
+            for y in (x[2].values() if len(x) == 3 and isinstance(x[2], dict) else x):
+                t = text_of(y, depth + 1) if isinstance(y, (tuple, str)) and y not in ('ctor', 'struct') and not (isinstance(y, str) and '::' in y) else None
+                if t:
+                    return t
+        return None
+    for fn in ('encode_formatted', 'encode_key'):
+        b = facts.body('toml_edit::encode::' + fn)
+        pn = [p['name'] for p in b['params'] if p.get('k') == 'p_bind']
+        inp = [p for p in pn if p.split('#')[0] == 'input']
+        if not inp:
+            raise Unanalysable(f'{fn}: no `input` parameter')
+        for has_repr in (True, False):
+            for has_input in (True, False):
+                it = RecInterp(Evaluator(facts), {'prefix_encode', 'suffix_encode', 'encode', 'write_str'}, stubs={'default_repr': REPR('<default repr>')})
+                this = ('struct', 'toml_edit::repr::Formatted' if fn == 'encode_formatted' else 'toml_edit::key::Key',
+                        {'value': 7, 'key': 'k', 'repr': ('ctor', SOME, (REPR('<explicit repr>'),)) if has_repr else ('ctor', NONE),
+                         'decor': ('decor',), 'leaf_decor': ('leaf',), 'dotted_decor': ('dotted',)})
+                env = {pn[0]: this, '@assign': {}}
+                for e in pn[1:]:
+                    env[e] = ('opaque',)
+                env[inp[0]] = ('ctor', SOME, ('<input>',)) if has_input else ('ctor', NONE)
+                if fn == 'encode_formatted':
+                    env[pn[-1]] = ('<default prefix>', '<default suffix>')
+                it.file = b.get('file')
+                it.val(b['body'], env)
+                evs = []
+                for nm, recv, args in it.trace:
+                    if nm == 'encode':
+                        evs.append((nm, text_of(recv)) + tuple(a for a in args if isinstance(a, str)))
+                    elif nm == 'write_str':
+                        evs.append((nm,) + tuple(a for a in args if isinstance(a, str)))
+                    else:
+                        evs.append((nm, recv) + tuple(a for a in args if isinstance(a, str)))
+                out[(fn, has_repr, has_input)] = evs
     for fn in ('encode_key_path', 'encode_key_path_ref'):
         b = facts.body('toml_edit::encode::' + fn)
         pn = [p['name'] for p in b['params'] if p.get('k') == 'p_bind']
@@ -107,6 +151,14 @@ def encode_traces(facts):
                     evs.append((nm, recv) + tuple(a for a in args if isinstance(a, str)))
             out[(fn, n)] = evs
     return out
+
+
+def expected_repr_trace(fn, has_repr, has_input):
+    text = '<explicit repr>' if has_repr else '<default repr>'
+    core_ev = [('encode', text, '<input>')] if has_input else [('write_str', text)]
+    if fn == 'encode_key':
+        return core_ev
+    return [('prefix_encode', ('decor',), '<default prefix>')] + core_ev + [('suffix_encode', ('decor',), '<default suffix>')]
 
 
 def expected_encode_trace(kind, n, tc=False):
@@ -167,6 +219,11 @@ def array_separators(rep, R, facts):
                   (f' (array of {bad_tc[0]}: {show(("array", bad_tc[0], True))})' if bad_tc else ''), loc)
         tb = facts.body('toml_edit::encode::encode_table')
         bad_t = [n for n in range(4) if tr[('table', n)] != expected_encode_trace('table', n)]
+        for fn in ('encode_formatted', 'encode_key'):
+            bad_r = [(r_, i_) for r_ in (True, False) for i_ in (True, False) if tr[(fn, r_, i_)] != expected_repr_trace(fn, r_, i_)]
+            rep.check(R, f'{fn}|repr-and-decor', not bad_r, 'explicit representation if any, else the default one; encoded against the source if any, else displayed' +
+                      ('; between prefix and suffix decor' if fn == 'encode_formatted' else ''),
+                      f'`{fn}` (explicit repr: {bad_r[0][0]}, source text: {bad_r[0][1]}) writes {tr[(fn,) + bad_r[0]]}' if bad_r else '', facts.loc(facts.body('toml_edit::encode::' + fn)))
         for fn in ('encode_key_path', 'encode_key_path_ref'):
             bad_k = [n for n in (1, 2, 3) if tr[(fn, n)] != expected_encode_trace(fn, n)]
             rep.check(R, f'{fn}|segments-and-dots', not bad_k, 'writer events of key paths of 1..3 segments: path prefix, key, (dotted suffix, dot, dotted prefix, key)*, path suffix',
